@@ -70,6 +70,10 @@ def corner_models():
                                     [oh.make_tensor_value_info("y", TP.FLOAT, ["N"])]), True))
     out.append(("custom-domain", mk([oh.make_node("Foo", ["x"], ["y"], domain="my.dom")], [vi("x")], [vi("y")],
                                     extra_imports=[oh.make_operatorsetid("my.dom", 2)]), False))
+    # inner names that collide once prefixed and enumerated: a node T, a value T (becomes ..__T_0) and a value T_0
+    out.append(("node-and-value-names-collide-when-enumerated",
+                mk([oh.make_node("Relu", ["x"], ["T"], name="T"), oh.make_node("Neg", ["T"], ["T_0"]), oh.make_node("Abs", ["T_0"], ["y"])],
+                   [vi("x")], [vi("y")]), True))
     # a domain that only nodes INSIDE a control-flow body of m use: its import is as much part of m as any other
     then_c = oh.make_graph([oh.make_node("Foo", ["x"], ["tb"], domain="my.dom")], "then", [], [vi("tb")])
     else_c = oh.make_graph([oh.make_node("Identity", ["x"], ["eb"])], "else", [], [vi("eb")])
